@@ -115,6 +115,10 @@ def check_program(item):
                 return res
             res["problems"].append(dict(kind="verdict", what="accepted with %s but %s with %s" % (argv0 + levels[0], acc.kind, argv), path="", argv=argv))
             continue
+        if U.doc_error_optional(stmts):
+            res["status"] = "doc-error-optional"
+            res["shapes"] = []
+            return res
         try:
             am = AM(acc.dctx)
         except Malformed as e:
@@ -165,6 +169,12 @@ def items_for(tier, seed):
         cap = 6000
     for j, p in enumerate(U.handwritten()):
         items.append(dict(ast=tuple(p), label="HW#%d" % j, want_c=True, cap=cap, levels=[[], ["-O0"], ["-O3"]], c_all_levels=True))
+    # one block nested in another (20 196 programs): a rotating tenth in the quick tier, all of them in the thorough tier
+    for i, p in enumerate(U.enumerate_nested()):
+        if tier == "quick" and i % 10 != seed % 10:
+            continue
+        items.append(dict(ast=p, label="N#%d" % i, want_c=(i % (cmod * 3) == seed % (cmod * 3)), cap=cap,
+                          levels=[[], ["-O3"]] if i % 2 else [[], ["-O0"]]))
     for i, p in gen:
         lv = lvls if tier != "quick" else ([[], ["-O3"]] if i % 4 == seed % 4 else ([[], ["-O0"]] if i % 4 == (seed + 1) % 4 else [[]]))
         items.append(dict(ast=p, label="U#%d" % i, want_c=(i % cmod == seed % cmod), cap=cap, levels=lv))
@@ -173,14 +183,18 @@ def items_for(tier, seed):
 
 def run(tier, seed):
     ck = Check("C01", tier, seed, "model_checking",
-               rule="every program of the bounded universe (leaf sequences <= 2 over the full menus; one block with bodies <= 2 and <= 1 statement before/after; case and if shapes); "
+               rule="every program of the bounded universe (leaf sequences <= 2 over the full menus; one block with bodies <= 2 and <= 1 statement before/after; case and if shapes; "
+                    "one block nested in another - every pair of block kinds - with <= 1 statement around the inner one); "
                     "accepted ones explored jointly with the reference interpreter to a fixpoint; distinct = (program, (REF outcome kind, machine result code, step carried events)) pairs")
     items = items_for(tier, seed)
     stats = dict(enumerated=len(items), accepted=0, rejected=0, internal=0, capped=0, machine_spins_left_to_C04=0, ambiguity_witnesses_left_to_C09=0,
-                 ref_divergence_left_to_C04=0, ub_skipped=0, cbuild_failed=0)
+                 ref_divergence_left_to_C04=0, ub_skipped=0, cbuild_failed=0, doc_error_optional_not_judged=0)
     for idx, r in pmap(check_program, items, timeout=600, chunksize=8, stop=ck.enough):
         if "harness_error" in r or "harness_timeout" in r:
             harness_fail("%s on %s\n%s" % (r, items[idx]["label"], U.source(items[idx]["ast"])))
+        if r["status"] == "doc-error-optional":
+            stats["doc_error_optional_not_judged"] += 1
+            continue
         if r["status"] != "ok":
             stats["rejected"] += 1
             if r["status"] in ("internal", "timeout"):
@@ -215,6 +229,8 @@ def run(tier, seed):
         "REF (nv/ref.py) is the procedural reading; spec-open points where a set is accepted: (i) an unclaimed symbol at the end of the program reached through a lookahead decision is either a mismatch at the deciding construct or left unconsumed after DONE; "
         "(ii) the order, for one byte, of its own append and the each-actions of an enclosing foreach; (iii) a char-append that directly follows a consumed byte and overflows may hand the handler that byte or the next; (iv) hook arguments are not compared (they are the C's `inval`, decided under C06)",
         "machine divergence (C04), ambiguity witnesses (C09) and C-undefined valuations met during the search are counted and left to their own checks",
+        "programs with an optional whose first statement does not match input (a try, an if, a case with an else clause, an action) are an error by the reference that nmfu does not always diagnose; they are compiled (a crash is C18's) but not judged",
+        "the order of the each-actions of nested foreach blocks for one byte is not specified; both orders are accepted",
         "bytes are represented by the lowest and highest member of every block of the source partition (every literal, set, range, class and byte constant written in the program)",
     ]
     return ck.finish()
